@@ -407,7 +407,23 @@ def gen_raw_log(rng, ids, with_p, with_pid, tid):
     return ev
 
 
-def gen_v3(rng, small=False, blocks=True):
+def embedded_tail(rng, forbidden):
+    """Bytes that ARE a well-formed tail of another small v3 dump — thread-map tag, size, entries, events tag, size, unknown
+    word, records — for regions the reader must skip unread (stackshot data, gaps, unknown blocks): a reader that re-scans such
+    a region (after a cut, after a failed search) decodes it.  None of the `forbidden` tags occurs in it."""
+    for _ in range(50):
+        threads = gen_threads(rng, 3)
+        tm = b''.join(enc_thread(t[0], t[1], bytes.fromhex(t[2])) for t in threads)
+        recs = [gen_rec(rng) for _ in range(rng.choice([1, 2, 3]))]
+        out = TAG_THREADMAP + len(tm).to_bytes(8, 'little') + tm + TAG_EVENTS + (64 * len(recs)).to_bytes(8, 'little') \
+            + rng.randbytes(8) + b''.join(recs)
+        out = rng.randbytes(rng.randrange(0, 9)) + out + rng.randbytes(rng.choice([0, 0, 64, 70]))
+        if not any(t in out for t in forbidden):
+            return out
+    return b''
+
+
+def gen_v3(rng, small=False, blocks=True, embed=0.12):
     """A well-formed v3 dump description (main stream)."""
     hdr_sizes = [4, 4, 8, 4, 4, 8, 8, 4, 4, 4, 4, 4]
     hdr = [rng.choice([0, 1, rng.randrange(1 << (8 * s)), (1 << (8 * s)) - 1]) for s in hdr_sizes]
@@ -415,6 +431,8 @@ def gen_v3(rng, small=False, blocks=True):
     f = {'hdr': hdr, 'cpu': cpu.hex(), 'four': rng.randbytes(4).hex(),
          'filler': gen_scan_gap(rng, STACKSHOT_END, 60).hex(), 'gap1': gen_scan_gap(rng, TAG_THREADMAP).hex(),
          'threads': gen_threads(rng, 4 if small else 40), 'tmtrail': rng.randbytes(rng.choice([0, 0, 1, 8, 31])).hex()}
+    if rng.random() < embed:        # the stackshot data holds what looks like the rest of a dump
+        f['filler'] = (embedded_tail(rng, [STACKSHOT_END]) + bytes.fromhex(f['filler'])).hex()
     nrec = rng.choice([0, 1, 2, 3, 5, 9, 20, rng.randrange(30)])
     if small:
         nrec = min(nrec, 4)
